@@ -226,7 +226,9 @@ main(void)
     VASSERT(fs_bad_fd_ops == 0, "C16: write/close on a descriptor the device did not open or already closed (at close)");
     VASSERT(fs_open_count() == 0, "C16: descriptor still open after the device was closed");
 #if DEV == 1
+#if LH >= 2
     COVER(starts >= 2);
+#endif
     COVER(appends_failed >= 1);
     COVER(starts == 0 && fs_opens == 0);
 #endif
